@@ -206,6 +206,37 @@ async def parsed_route(chk, rng, count):
             chk.fail("the literals of the expression the application receives are not the bound values", desc, dict(literals=[repr(x) for x in lits]))
 
 
+async def named_parameters(chk, rng, count):
+    """binding is positional: the i-th placeholder gets the i-th value of the parameter block whatever NAMES the client attached to
+    the statement's parameters (libmysqlclient's mysql_stmt_bind_named_param sends them) and whatever attributes follow"""
+    for i in range(count):
+        caps = BASE | C.CLIENT_QUERY_ATTRIBUTES
+        s = RawSession(lambda sess, sql, attrs: ([(1,)], ["a"]))
+        srv = mkserver([s])
+        a = Peer(srv)
+        await a.login(caps=caps)
+        n = rng.choice([1, 2, 3])
+        out = await a.cmd(b"\x16select " + b", ".join([b"?"] * n) + b" from t")
+        sid = struct.unpack_from("<I", out[0][1], 1)[0]
+        named = [rng.random() < 0.7 for _ in range(n)]
+        if not any(named):
+            named[rng.randrange(n)] = True
+        params = [(253, False, b"v%d" % k, (b"p%d" % k) if named[k] else b"") for k in range(n)]
+        attrs = rng.choice([[], [(253, False, b"x' OR '1'='1", b"")], [(253, False, b"mallory", b""), (3, False, 5, b"lim")], [(253, False, b"t", b"trace")]])
+        before = len(s.log)
+        rep = await a.cmd(com_stmt_execute(sid, params, caps=caps, attrs=attrs), n=50)
+        got = [l[1] for l in s.log[before:] if l[0] == "hq"]
+        await a.finish()
+        want = "select " + ", ".join("'v%d'" % k for k in range(n)) + " from t"
+        chk.count("exec:named-parameters")
+        chk.case(("named", n, tuple(named), len(attrs), i))
+        if got != [want]:
+            chk.fail("placeholders were not bound positionally when the statement's parameters carry names",
+                     dict(template="select %s from t" % ", ".join("?" * n), names=[p[3].decode() for p in params],
+                          trailing_attributes=[(x[3].decode(), repr(x[2])) for x in attrs]),
+                     dict(received=got[:2], expected=want, reply=[pk[:60] for _, pk in rep][:1]))
+
+
 def main():
     chk = Check("C06", sys.argv[1:])
     chk.rule = ("templates from the grammar (text | ? | '?' | \"?\" | `?` | other quoted runs)*, parameter tuples over an adversarial "
@@ -224,6 +255,7 @@ def main():
         for k in range(500 if not chk.thorough else 60000):
             await run_case(chk, rng, lines, impl, qa=(k % 3 == 0))
         await parsed_route(chk, rng, 120 if not chk.thorough else 6000)
+        await named_parameters(chk, rng, 30 if not chk.thorough else 600)
 
     asyncio.run(go())
     model = drive(lines)
